@@ -7,6 +7,16 @@ def run_dec(ctx, cases, prop, signature, nontrivial_rule=None, relation=None, us
     """cases: Case lists of `dec ...` ops. Compares implementation and model observations
     (correspondence) and evaluates the specification (`chk dec`) on the implementation's trace.
     signature(case, op_index, verdict) -> str used to match known findings."""
+    import os
+    cdir = os.path.join(os.path.dirname(os.path.dirname(os.path.abspath(__file__))), "corpus", prop)
+    if os.path.isdir(cdir):
+        corpus = []
+        for f in sorted(os.listdir(cdir)):
+            if f.endswith(".ops"):
+                ops = [l.rstrip("\n") for l in open(os.path.join(cdir, f)) if l.strip() and not l.startswith("#")]
+                if ops:
+                    corpus.append(Case(ops, "corpus:" + f[:-4], True, True))
+        cases = corpus + list(cases)
     impl, model = ctx.both(cases)
     chk_cases = []
     for ci, c in enumerate(cases):
